@@ -9,6 +9,10 @@ SEARCH_ONLY_NOTE = ("primitives without a Lean model (differential execution onl
 
 
 def run(ctx):
+    if ctx.replay:
+        ctx.rule = "replay of one recorded case"
+        sched_run.replay_stream(ctx, ctx.replay)
+        return
     ctx.rule = ("pool program (harness/pool.py, + constant-perturbed variants) x every (primitive, cursor, args) "
                 "attempt of harness/stream.py, depth-2 schedules sampled; an evaluation = one accepted rewrite "
                 "executed before/after in the Lean reference interpreter on valid inputs (random sizes, strided "
@@ -23,7 +27,7 @@ def run(ctx):
     ]
     ctx.trusted += ["modelled, not verified: z3/pysmt and the effect analysis of new_eff.py / new_analysis_core.py",
                     SEARCH_ONLY_NOTE]
-    broken = ctx.lean_obligations(["ExoModel.Props.C01", "ExoModel.Props.C01Subst"])
+    broken = ctx.lean_obligations(["ExoModel.Props.C01", "ExoModel.Props.C01Subst", "ExoModel.Props.C01Data"])
     recs = sched_run.run_stream(ctx, ["obs_sem"], nvariants=ctx.scale(1, 3),
                                 opts={"depth": ctx.scale(2, 2), "n_inputs": ctx.scale(3, 6),
                                       "depth2_procs": ctx.scale(3, 10), "depth2_attempts": ctx.scale(12, 40)})
